@@ -391,8 +391,56 @@ FIXED += [
 ]
 
 
+# ---- error objects that application code builds once and re-uses for every request
+
+def shared_strategy():
+    from hypothesis import strategies as st
+    return st.tuples(st.sampled_from(['Forbidden', 'NotFound', 'Gone', 'ServiceUnavailable', 'ImATeapot']), st.booleans(),
+                     st.sampled_from(['raise', 'return']), st.sampled_from(HANDLERS[:2] + ['broken']),
+                     st.lists(st.sampled_from(['/hello', '/nothing', '/boom', '/hello/x', '/post-only', '/direct']), min_size=2, max_size=8),
+                     st.sampled_from([None, 'text/html', 'application/json']))
+
+
+def shared_body(case, ctx):
+    from clastic import Application, Route, Response, POST, errors
+    cn, breaking, how, handler, paths, accept = case
+    rc = [cn, breaking, how, handler, list(paths), accept]
+    ctx.current = rc
+    shared = getattr(errors, cn)('shared instance', is_breaking=breaking)     # built once, like a module-level constant
+
+    def guard(gpath):
+        if how == 'raise':
+            raise shared
+        return shared
+
+    def direct():
+        raise shared
+    app = Application([Route('/direct', direct), Route('/<gpath*>', guard), Route('/hello', lambda: Response('hello')),
+                       Route('/boom', lambda: 1 // 0), POST('/post-only', lambda: Response('posted'))],
+                      error_handler=make_handler(handler))
+    code = getattr(errors, cn).code
+    for i, path in enumerate(paths):
+        r = call(app, path, headers={'Accept': accept} if accept else None)
+        ctx.requests += 1
+        if path == '/direct':
+            want = code
+        elif breaking:
+            want = code                           # the guard's error ends routing
+        else:
+            want = {'/hello': 200, '/boom': 500}.get(path, code)     # nothing answers: the most recent non-breaking error
+        what = 'request #%d GET %s with a shared %s(is_breaking=%s) %sed by a route in front' % (i + 1, path, cn, breaking, how)
+        if r.exc is not None:
+            ctx.mismatch('shared-error-escaped', '%s: %r' % (what, r.exc), rc)
+            return
+        if r.status != want:
+            ctx.mismatch('shared-error-history', '%s: status %s, expected %s (earlier requests: %s)' % (what, r.status, want, paths[:i]), rc)
+            return
+    ctx.event('shared-error-histories')
+    ctx.nt(rc, sample=len(ctx.samples) < 1)
+
+
 def shards(tier, seed):
-    out = []
+    out = [{'part': 'shared', 'n': 150 if tier == 'quick' else 6000}]
     for h in HANDLERS:
         out.append({'part': 'product', 'shape': 0, 'handlers': [h]})
     out.append({'part': 'product', 'shape': 1, 'handlers': HANDLERS})
@@ -400,18 +448,23 @@ def shards(tier, seed):
         for sh in range(2, len(FIXED)):
             out.append({'part': 'product', 'shape': sh, 'handlers': HANDLERS})
     n = 40 if tier == 'quick' else 12000
-    out += [{'part': 'random', 'n': n} for _ in range(10)]
+    out += [{'part': 'random', 'n': n} for _ in range(9)]
     return out
 
 
 def run_shard(spec, ctx):
-    if spec['part'] == 'product':
+    if spec['part'] == 'shared':
+        ctx.hyp(shared_strategy(), shared_body, spec['n'], kind='shared')
+    elif spec['part'] == 'product':
         run_product(spec, ctx)
     else:
         ctx.hyp(strategy(), history_body, spec['n'], kind='history')
 
 
 def replay(case, kind, ctx):
+    if kind == 'shared' or (isinstance(case, list) and len(case) == 6 and isinstance(case[0], str)):
+        shared_body(case, ctx)
+        return
     if isinstance(case, dict):
         shape = FIXED[case['shape']]
         cell = {}
